@@ -171,7 +171,7 @@ Section CONN.
         | _, _ => (Err ERefused, c)
         end
     end.
-  (* hls_response_valid(utils.parse_as_dlms_data(apdu.data)): 0 valid, 1 not valid, 2 raises *)
+  (* hls_response_valid(utils.parse_as_dlms_data(apdu.data)): 0 valid, 1 not valid, 2 raises, 3 raises CipheringError *)
   Definition hls_proof (k : cfg) (c : cst) (data : bytes) : N :=
     match parse_as_dlms_data data with
     | Ok (PBytes resp) =>
@@ -185,7 +185,7 @@ Section CONN.
                 | Some ek, Some ak, Some mt, Some ch =>
                     match sec_gmac E x mt (be_val (slice 1 5 resp)) ek ak ch with
                     | Ok g => if list_eqb (lastn 12 resp) g then 0 else 1
-                    | Err _ => 2
+                    | Err e => if e =? ECipher then 3 else 2
                     end
                 | _, _, _, _ => 2
                 end
